@@ -234,7 +234,7 @@ def hyp_settings(max_examples, shrink=True, **kw):
     )
 
 
-def hunt(ctx, make_test, seed, max_examples, shrink=True, max_root_causes=6):
+def hunt(ctx, make_test, seed, max_examples, shrink=True, max_root_causes=None):
     """Run a Hypothesis test; on a violation record the shrunk case, exclude that root cause by
     construction (ctx.suppressed) and search again, so one shallow defect does not hide the next.
 
@@ -245,6 +245,8 @@ def hunt(ctx, make_test, seed, max_examples, shrink=True, max_root_causes=6):
     from hypothesis.errors import FailedHealthCheck, Unsatisfiable
 
     found = 0
+    if max_root_causes is None:
+        max_root_causes = 3 if ctx.tier == "quick" else 8
     for attempt in range(max_root_causes):
         test = make_test()
         test = hseed(seed + 7919 * attempt)(hyp_settings(max_examples, shrink=shrink)(test))
